@@ -28,7 +28,7 @@ VARIABLE k
 LCG(r) == (r * 75 + 74) % 65537
 RECURSIVE Draws(_, _)
 Draws(r, m) == IF m = 0 THEN <<>> ELSE <<LCG(r)>> \o Draws(LCG(r), m - 1)
-Pick(seq, d) == seq[(d % Len(seq)) + 1]
+Pick(seq, d) == seq[((d \div 16) % Len(seq)) + 1]
 RemoveAt(s, i) == SubSeq(s, 1, i - 1) \o SubSeq(s, i + 1, Len(s))
 RECURSIVE Shuffle(_, _)
 Shuffle(s, r) == IF Len(s) <= 1 THEN s
